@@ -202,7 +202,14 @@ def gen_c10(seed, index):
     queries = g.ops
     g.ops = []
     for _ in range(rng.randint(1, 5)):
-        k = rng.choice(["pfit", "pfit", "query", "query", "add", "rem", "warm"])
+        k = rng.choice(["pfit", "pfit", "query", "query", "add", "rem", "warm", "swap"])
+        if k == "swap":
+            n0 = len(g.ops)
+            g.op_rem()
+            if len(g.ops) > n0:
+                g.op_add()
+                g.op_query(rng.choice(["pred", "pexp"]))
+            continue
         {"pfit": lambda: g.op_train("pfit"), "query": g.op_query, "add": g.op_add, "rem": g.op_rem, "warm": g.op_warm}[k]()
     g.op_query("pexp")
     return {"cfg": dict(scn["cfg"], n_jobs=rng.choice([1, 1, 2])), "ops": scn["ops"], "queries": queries, "cont": g.ops}
@@ -436,4 +443,70 @@ def fit_task_orders(scn):
     for o, res in zip(orders[1:], results[1:]):
         if not T.same(res, results[0], 1e-12):
             return "task order %r gives %r, order %r gives %r" % (list(orders[0]), results[0], list(o), res)
+    return None
+
+
+# ------------------------------------------------------------------ C13 warm start laws
+
+WARM_PROFILE = {"name": "C13", "lp": list(G.WARM_OK), "np": [None], "n_arms": [2, 3, 4, 5, 5],
+                "weights": {"fit": 1, "pfit": 3, "query": 2, "add": 2.5, "rem": 0.7, "warm": 3}, "n_ops": (4, 11)}
+
+
+def gen_c13(seed, index):
+    rng, g = _gen(seed, index, WARM_PROFILE)
+    scn = g.build()
+    g.ops = []
+    if rng.random() < 0.6:
+        g.op_add()
+    g.op_warm()
+    if not g.ops or g.ops[-1]["op"] != "warm":
+        g.op_warm()
+    warm = [o for o in g.ops if o["op"] == "warm"][-1:]
+    pre = [o for o in g.ops if o["op"] != "warm"]
+    g.ops = []
+    for _ in range(rng.randint(1, 3)):
+        k = rng.choice(["pfit", "query", "query"])
+        {"pfit": lambda: g.op_train("pfit"), "query": g.op_query}[k]()
+    g.op_query("pexp")
+    return {"cfg": scn["cfg"], "ops": scn["ops"] + pre, "warm": warm[0] if warm else None, "cont": g.ops}
+
+
+@twin("warm_start_laws")
+@T.quiet
+def warm_start_laws(scn):
+    if not scn.get("warm"):
+        return None
+    T.register_labels(dict(scn, ops=scn["ops"] + [scn["warm"]]))
+    a = S.make_mab(scn["cfg"])
+    T.apply_ops(a, scn["ops"])
+    if not a._is_initial_fit:
+        return None
+    cold0 = T.canon(list(a.cold_arms))
+    once = copy.deepcopy(a)
+    r1 = T.apply_op(once, scn["warm"])
+    if r1[0] != "ok":
+        # a rejected warm start must change nothing (C17); nothing more to check here
+        return None
+    cold1 = T.canon(list(once.cold_arms))
+    if not set(map(repr, cold1)) <= set(map(repr, cold0)):
+        return "cold_arms after warm_start %r is not a subset of cold_arms before %r" % (cold1, cold0)
+    # repeating the call changes nothing
+    twice = copy.deepcopy(once)
+    T.apply_op(twice, scn["warm"])
+    cont = scn["cont"] + [{"op": "cold"}]
+    d = T.first_diff(T.apply_ops(once, cont), T.apply_ops(twice, cont), 0.0)
+    if d:
+        return "repeating warm_start changed the bandit: continuation step %d: once %r, twice %r" % (d[0], d[1], d[2])
+    # the set of warm-started arms grows with the quantile
+    prev = None
+    for q in (0.0, 0.25, 0.5, 0.75, 1.0):
+        b = copy.deepcopy(a)
+        r = T.apply_op(b, dict(scn["warm"], q=q))
+        if r[0] != "ok":
+            continue
+        cold = set(map(repr, T.canon(list(b.cold_arms))))
+        if prev is not None and not cold <= prev[1]:
+            return "cold arms at quantile %r (%r) not a subset of those at quantile %r (%r)" % (q, sorted(cold), prev[0], sorted(prev[1]))
+        prev = (q, cold)
+    # trained arms keep their learned state: train-free continuation on a deterministic policy
     return None
